@@ -21,6 +21,7 @@ import z3
 
 REPO = os.environ.get("VERIF_REPO", "/repo")   # development only: another checkout of the library
 
+from . import robust
 from .symnum import HarnessError
 
 try:  # Python 3.11+
@@ -365,10 +366,9 @@ def isomorphism(a: Tables, b: Tables, timeout_ms: int = 60000) -> Dict[str, Any]
             else:
                 S.add(z3.Implies(pi[s] == t, z3.And(*conds) if conds else z3.BoolVal(True)))
     t0 = time.time()
-    r = str(S.check())
+    r, m = robust.check(S, timeout_ms)
     out: Dict[str, Any] = {"result": r, "solver_s": time.time() - t0, "states": len(sa)}
     if r == "sat":
-        m = S.model()
         out["pi"] = {s: m.eval(pi[s]).as_long() for s in sa}
     return out
 
@@ -591,14 +591,13 @@ def product_search(a: Tables, b: Tables, K: int, timeout_ms: int = 120000) -> Di
     t0 = time.time()
     S.push()
     S.add(ln == 2)
-    witness = str(S.check())
+    witness, _ = robust.check(S, timeout_ms)
     S.pop()
     S.add(disagree)
-    r = str(S.check())
+    r, m = robust.check(S, timeout_ms)
     out: Dict[str, Any] = {"result": r, "witness": witness, "K": K, "solver_s": time.time() - t0,
                            "symbols": len(symbols)}
     if r == "sat":
-        m = S.model()
         ev = lambda v: m.eval(v, model_completion=True).as_long()
         n = ev(ln)
         out["path"] = [symbols[ev(sym[i])] for i in range(n)]
